@@ -367,7 +367,7 @@ def run(p: Program, rep: Report, tier: str) -> None:
             if m is None:
                 continue
             rep.analysed(m.fq)
-            for node, desc, okk in stale_index_deletes(m):
+            for node, desc, okk in stale_index_deletes(m, p):
                 n5 += 1
                 if okk:
                     rep.ok("R18.5", f"set semantics of the query helper: {c.name}.{mname}: {desc}")
